@@ -311,6 +311,16 @@ fn gen_sys_n(rng: &mut Rng, out: &mut Vec<String>, count: usize, cap: usize) {
         }
     }
     if cap != 0 { return; }
+    // a residual component that is NaN (inf - inf from an overflowing exponential) at the guess while the OTHER components vanish
+    // there: the stopping criterion is not met, whatever the position of the NaN, so success must not be reported (and a
+    // reported point must be finite). Positions 0, 1, last; real systems with both Jacobian modes
+    for n in 2..=4usize { for pos in 0..n { for mode in 0..2 {
+        let comps: Vec<E<f64>> = (0..n).map(|i| if i == pos { let e: E<f64> = Expr::Exp(Box::new(mul(k(800.0), v(i)))); add(v(i), sub(e.clone(), e)) } else { sub(v(i), k(1.0)) }).collect();
+        let f: VFn<f64> = VFn { comps, ext: None };
+        let guess: Vec<f64> = vec![1.0; n];
+        let jac = { let mut s = format!("{}", n * n); for i in 0..n { for j in 0..n { s.push(' '); s.push_str(&k::<f64>(if i == j { 1.0 } else { 0.0 }).show()); } } s };
+        out.push(format!("newton_v f {} {} {} 20 rootfree 0 {} {}", wr_vec(&guess), (1e-8f64).wr(), (1e-8f64).wr(), f.show(), if mode == 0 { "fd".to_string() } else { format!("exact {}", jac) }));
+    } } }
     // root-free system and a map whose output size changes
     let f: VFn<f64> = VFn { comps: vec![add(mul(v(0), v(0)), k(1.0)), add(v(1), k(0.0))], ext: None };
     out.push(format!("newton_v f {} {} {} 7 rootfree 0 {} fd", wr_vec(&[0.5f64, 0.25]), (1e-8f64).wr(), (1e-8f64).wr(), f.show()));
